@@ -375,7 +375,7 @@ pub fn run_c14(tier: Tier, seed: u64, index: u64, scratch: &Scratch, rec: &mut R
             if kind == 0 {
                 // storage faults on the link directory, before any signature is checked
                 let n = 1 + r.weighted(&[40, 30, 20, 10]);
-                let fs = [F::ByteFlip, F::ByteTrunc, F::ByteOverwrite, F::Garbage, F::IsDir, F::Dangling, F::DupFile, F::ByteOverwrite, F::ByteFlip];
+                let fs = [F::ByteFlip, F::ByteTrunc, F::ByteOverwrite, F::Garbage, F::IsDir, F::Dangling, F::DupFile, F::OddFileName, F::OddFileName, F::ByteOverwrite, F::ByteFlip];
                 let mut applied = 0;
                 let mut tries = 0;
                 while applied < n && tries < 10 {
